@@ -29,6 +29,7 @@ WITNESS = [
     (r"history::", "engine_core", "inkayaku_engine_core", "c10_repetition.rs", "witness_c10"),
     (r"san_suffix_fragment", "board", "inkayaku_board", "c05_check_detection.rs", "witness_c05_san"),
     (r"uci_to_pgn", "board", "inkayaku_board", "c13_rejected_move.rs", "witness_uci_to_pgn"),
+    (r"search_abort::", "engine_core", "inkayaku_engine_core", "c09_interrupted_search.rs", "witness_c09"),
     (r"SearchSlice::", "engine_core", "inkayaku_engine_core", "c09_interrupted_search.rs", "witness_c09"),
     (r"attacks::Bitboard::", "board", "inkayaku_board", "c05_check_detection.rs", "witness_c05"),
     (r"hashtable::HashTable::", "append:engine_core/src/engine/table.rs", "inkayaku_engine_core", "c18_fifo_map.rs", "verif_witness_c18"),
@@ -48,7 +49,17 @@ def find_witness(obligation):
     return None
 
 
+_WITNESS_CACHE = {}
+
+
 def run_witness(crate, pkg, fname, flt, timeout=1500):
+    key = (crate, pkg, fname, flt, os.environ.get("VERIF_REPO", "/repo"))
+    if key not in _WITNESS_CACHE:
+        _WITNESS_CACHE[key] = _run_witness(crate, pkg, fname, flt, timeout)
+    return _WITNESS_CACHE[key]
+
+
+def _run_witness(crate, pkg, fname, flt, timeout=1500):
     src = open(os.path.join(VERIF, "witness", fname)).read()
     with scratch.Scratch("replay") as s:
         if crate.startswith("append:"):
